@@ -53,6 +53,22 @@ pub struct Tamper {
 pub struct Case {
     pub config: ConfigSpec,
     pub tampers: Vec<Tamper>,
+    /// 0: the source file is the JSON document itself; 1: the source is a script in another
+    /// language and encoding (Latin-1 comments, an incomplete multi-byte sequence at its end)
+    #[serde(default)]
+    pub source_kind: u8,
+}
+
+/// What the source file holds. `config generate` only reads the configuration from stdin; the
+/// source file is checksummed as it is, whatever its language or encoding.
+fn source_file_bytes(kind: u8, json: &[u8]) -> Vec<u8> {
+    if kind == 0 {
+        return json.to_vec();
+    }
+    let mut v = b"#!/usr/bin/env python3\n# -*- coding: latin-1 -*-\n# g\xe9n\xe9r\xe9 par l'\xe9quipe \xfc\xff\x80 na\xefve\nimport sys\nsys.stdout.write(r\"\"\"".to_vec();
+    v.extend_from_slice(json);
+    v.extend_from_slice(b"\"\"\")\n# fin \xe0 \xe2\x82");
+    v
 }
 
 pub fn tamper() -> impl Strategy<Value = Tamper> {
@@ -88,7 +104,7 @@ pub fn tamper() -> impl Strategy<Value = Tamper> {
 pub fn strategy() -> impl Strategy<Value = Case> {
     let small = gen::raw_config(6, 2, 1).prop_map(|raw| gen::build_config(&raw, CycleMode::Acyclic));
     let big = (60usize..300, vec(any::<u16>(), 16)).prop_map(|(n, picks)| c18::big_config(n, &picks));
-    (prop_oneof![1 => small, 2 => big], vec(tamper(), 4..10)).prop_map(|(config, tampers)| Case { config, tampers })
+    (prop_oneof![1 => small, 2 => big], vec(tamper(), 4..10), 0u8..=1).prop_map(|(config, tampers, source_kind)| Case { config, tampers, source_kind })
 }
 
 fn apply(orig: &[u8], t: &Tamper) -> Option<Vec<u8>> {
@@ -199,7 +215,8 @@ pub fn check(case: &Case, w: usize) -> CheckResult {
         std::fs::write(env.config_path(), serde_json::to_string_pretty(&env.with_ports(&older).to_value()).unwrap()).ok();
         env.write_file("Monorail.lock", b"{\"checksum\":\"0000000000000000000000000000000000000000000000000000000000000000\",\"padding\":\"an older and longer lockfile\"}\n");
     }
-    env.write_file("Monorail.src.json", &src_bytes);
+    let src_file = source_file_bytes(case.source_kind, &src_bytes);
+    env.write_file("Monorail.src.json", &src_file);
     let mut beh = BTreeMap::new();
     for t in &cfg.targets {
         beh.insert(("c0".to_string(), t.path.clone()), Behavior::default());
@@ -257,7 +274,7 @@ pub fn check(case: &Case, w: usize) -> CheckResult {
     let mut nontrivial = false;
     for (ti, t) in case.tampers.iter().enumerate() {
         let (path, orig) = match t.file {
-            FileSel::Source => (env.path("Monorail.src.json"), &src_bytes),
+            FileSel::Source => (env.path("Monorail.src.json"), &src_file),
             FileSel::Generated => (gen_path.clone(), &gen_bytes),
             FileSel::Lock => (lock_path.clone(), &lock_bytes),
         };
@@ -379,7 +396,7 @@ pub fn exhaustive_cases() -> Vec<Case> {
         ..Default::default()
     };
     let mut all = vec![];
-    for (file, len) in [(FileSel::Source, 400usize), (FileSel::Generated, 700), (FileSel::Lock, 90)] {
+    for (file, len) in [(FileSel::Source, 520usize), (FileSel::Generated, 700), (FileSel::Lock, 90)] {
         for o in 0..len {
             all.push(Tamper {
                 file,
@@ -403,13 +420,14 @@ pub fn exhaustive_cases() -> Vec<Case> {
         .map(|c| Case {
             config: config.clone(),
             tampers: c.to_vec(),
+            source_kind: 1,
         })
         .collect()
 }
 
 pub fn run(ctx: &mut Ctx) {
     ctx.rule = "a valid source configuration (2-6 generated targets, or 60-300 targets so that the generated file spans several 8 KiB buffers) passed through the real `config generate`; \
-first every API is exercised on the untouched triple (all must succeed, run must start its helpers); then single tampers: file in {source, generated, lockfile} x {XOR a non-zero mask into one byte, \
+the source file is the JSON document or a script in another encoding (Latin-1 bytes, incomplete multi-byte tail) around it; first every API is exercised on the untouched triple (all must succeed, run must start its helpers); then single tampers: file in {source, generated, lockfile} x {XOR a non-zero mask into one byte, \
 truncate, append (text, NUL bytes, bytes repeating the content 512/4096/8192/16384/65536 positions earlier), cut 1-3 tail bytes}, 30% with the file's modification time restored afterwards x offset (first, last, uniformly random, within 3 bytes of 8192/16384/65536); plus every single-byte edit of one small triple. oracle per tamper (2 of 13 APIs, rotating): \
 non-zero exit, error JSON on stderr, no helper started, out dir byte-identical. lockfile edits that leave the parsed checksum intact are not judged. \
 non-trivial = tamper offset >= 8192, or tamper in source/lockfile; distinct by SHA-256"
